@@ -2,11 +2,12 @@ import Pacti.Driver.Wire
 import Pacti.Driver.OpsPoly
 import Pacti.Driver.OpsSym
 import Pacti.Driver.OpsElim
+import Pacti.Driver.OpsPlots
 open Lean Wire
 
 /-- every op family registers one handler here -/
 def handlers : List (String → Json → Option (Except String Json)) :=
-  [handlePoly, OpsSym.handleSym, OpsElim.handleElim]
+  [handlePoly, OpsSym.handleSym, OpsElim.handleElim, handlePlots]
 
 def handle (j : Json) : Except String Json := do
   let op ← (← j.getObjVal? "op").getStr?
